@@ -10,7 +10,7 @@ R_THOROUGH = ["cases.tl", "goldmaster.tl", "goldmaster2.tl", "goldmaster3.tl", "
 
 def run_gen(prop, tier, regex, regex_q=None, props=None, optsets=("full",), params_q=None, params_t=None, level="model_checking", f_pattern="*",
             r_quick=(), r_thorough=(), wall_q="8s", wall_t="300s", bounds=None, outside=None, assumptions=(), only=None, max_models_q=6, max_models_t=30,
-            max_paths_q=1200, max_paths_t=60000, hgen_extra=(), ladder=None, prim=None):
+            max_paths_q=1200, max_paths_t=60000, hgen_extra=(), ladder=None, prim=None, pkg_harness=None):
     c = GenCheck(prop, tier, level)
     if tier == "quick" and regex_q:
         regex = regex_q
@@ -34,6 +34,12 @@ def run_gen(prop, tier, regex, regex_q=None, props=None, optsets=("full",), para
         c.run_pkg(REPO, "./pkg/basictl", os.path.join(REPO, "pkg/basictl"), "basictl", files, prim, params={"strlen": 8, "bits": 17, "maxalloc": 64},
                   max_models=6, label="pkg/basictl")
         c.assumptions.append("generated code reaches strings/sizes/Bool only through pkg/basictl primitives; their obligations (%s) are decided on buffers of symbolic length up to 2^57" % prim)
+    if pkg_harness:
+        # obligations on a repository package itself (harness injected by overlay)
+        ph = pkg_harness
+        c.run_pkg(REPO, "./" + ph["pkg"], os.path.join(REPO, ph["pkg"]), ph["pkgname"], [os.path.join(VERIF, f) for f in ph["files"]], ph["regex"],
+                  params=ph["params_q"] if tier == "quick" else ph["params_t"], max_models=6, label=ph["pkg"], wall="60s" if tier == "quick" else "600s", soft_trunc="record")
+        c.assumptions.append(ph["text"])
     c.assumptions += list(assumptions)
     b = dict(bounds or {})
     b.update(params)
@@ -71,7 +77,9 @@ SPEC["C09"] = dict(regex_q="^VerifC09(f|ft2|j|reset)_", hgen_extra=["-jmode"], p
 SPEC["C18"] = dict(params_q={"L": 2, "rlow": 99}, params_t={"L": 3, "rlow": 99}, ladder=[{"rlow": 1}, {"rlow": 0, "L": 1}],
                    bounds={"rand": "ANY output sequence of the Rand source (every draw a fresh symbolic 64-bit value): strictly more than all seeds", "sizes": "SizeHandler = x mod (L+1)",
                            "rlow": "when < 32: every draw is assumed to be <= rlow modulo 32 (keeps RandomString short; its length is not under SizeHandler control)"},
-                   outside=OUT_COMMON + ["JSON writer on random values (numbers symbolic)", "collection sizes above L"], r_thorough=R_QUICK)
+                   outside=OUT_COMMON + ["JSON writer on random values (numbers symbolic)", "collection sizes above L"], r_thorough=R_QUICK,
+                   pkg_harness=dict(pkg="pkg/basictl", pkgname="basictl", files=["harness/basictl/zz_verif_c18.go"], regex="^VerifC18Depth$", params_q={"K": 12}, params_t={"K": 18},
+                                    text="termination of recursive types: generated FillRandom brackets nested containers / recursive fields in IncreaseDepth..DecreaseDepth; decided on pkg/basictl: for every well-nested sequence of <= K Increase/Decrease calls, every maxDepth (2..5) and every Rand output, at a true nesting level >= maxDepth RandomSize and RandomFieldMask return 0 without drawing"))
 SPEC["C43"] = dict(params_q={"D": 1, "L": 1, "S": 1, "B": 1}, params_t={"D": 2, "L": 2, "S": 2, "B": 2}, ladder=[{"B": 0}],
                    bounds=VAL_BOUNDS, outside=OUT_COMMON + ["JSON leg of presence (see C05 for the JSON writer/reader agreement)"], r_thorough=R_QUICK,
                    assumptions=["object states are normalised by the generated RepairMasks (API-reachable presence state)",
